@@ -9,4 +9,13 @@ EXTRA = dict(bounded=[], explanation="Async: the record appended by push_step is
 
 
 def check(tier, seed):
-    return check_property("C13", UNITS, tier, seed, extra=EXTRA)
+    from pyvc import bounded
+    lines, ev, err = bounded.async_episodes("C13", tier, seed)
+    lines2, ev2, err2 = bounded.compiled_api("C13", tier, seed)
+    lines, err = lines + lines2, err or err2
+    extra = dict(EXTRA)
+    extra["bounded"] = list(extra.get("bounded", [])) + [ev, ev2]
+    for l in ev.get("known_finding_lines", []) + ev2.get("known_finding_lines", []):
+        print(l)
+    code = check_property("C13", UNITS, tier, seed, extra=extra)
+    return bounded.finish_with_bounded("C13", code, lines, err)
